@@ -163,4 +163,20 @@ theorem orig_path_root_counterexample :
   rw [h2] at h1
   simp at h1
 
+/-! ### The keyword literals `nil`, `empty`, `blank` (known findings, not repaired)
+
+`Nil.__str__`, `Empty.__str__` and `Blank.__str__` return the empty string (the first is pinned by the
+repo's tests, the other two are also the run-time string conversion of the values).  So the text of a
+primitive does not determine the primitive: no parser can read it back. -/
+theorem keyword_literal_print_counterexample :
+    ¬ (∀ p q : Prim, strPrim p = strPrim q → p = q) := by
+  intro h
+  have := h .empty .blank rfl
+  cases this
+
+/-- … and a comparison against one of them is printed without its right operand. -/
+theorem empty_literal_text_counterexample :
+    strBool { e := .cmp .eq (.atom 0) (.atom 1), atoms := [.path (.cons (.name "x") .nil), .empty] } = "x == " := by
+  decide
+
 end LiquidVerif.C04
